@@ -17,6 +17,16 @@ def plan(pid, tier, seed):
     runs = []
     if pid in RUNTIME:
         runs.append(("drive", lambda: engines.drive(tier, seed)))
+    if pid in ("C03",):
+        runs.append(("drive-release", lambda: engines.drive(tier, seed, release=True)))
+    if pid in ("C01", "C08", "C09", "C10", "C07"):
+        runs.append(("boundary", lambda: engines.boundary(tier, seed)))
+    if pid in ("C08", "C10"):
+        runs.append(("boundary-wrapping", lambda: engines.boundary(tier, seed, features=("wrapping_version",))))
+    if pid in ("C11",):
+        runs.append(("borrow", lambda: engines.borrow(tier, seed)))
+    if pid in ("C17",):
+        runs.append(("drive-events", lambda: engines.drive(tier, seed, features=("events",))))
     return runs
 
 def known_findings():
